@@ -361,6 +361,7 @@ class Harness:
     # ------------------------------------------------------------------
     def report(self) -> Dict[str, Any]:
         return {
+            "optimize": sys.flags.optimize,
             "pid": self.pid,
             "shard": self.shard,
             "seed": self.seed,
